@@ -33,10 +33,10 @@ STR_LABELS = ["a", "b", "c", "d", "e", "f"]
 # ------------------------------------------------------------------------------------------------ generator
 def generate(tier, seed):
     if tier == "quick":
-        cfgs = [dict(NW=3, L=3, MaxCuts=2, Chain="FALSE", NOBS=5), dict(NW=4, L=3, MaxCuts=2, Chain="TRUE", NOBS=3)]
+        cfgs = [dict(NW=3, L=3, MaxCuts=2, Chain="FALSE", NOBS=5), dict(NW=4, L=3, MaxCuts=2, Chain="TRUE", NOBS=2)]
     else:
         cfgs = [dict(NW=3, L=3, MaxCuts=3, Chain="FALSE", NOBS=5), dict(NW=4, L=3, MaxCuts=2, Chain="FALSE", NOBS=5),
-                dict(NW=5, L=4, MaxCuts=2, Chain="TRUE", NOBS=3)]
+                dict(NW=5, L=4, MaxCuts=2, Chain="TRUE", NOBS=1)]
     cases, st, tr, models = [], 0, 0, []
     for i, c in enumerate(cfgs):
         wd = lib.workdir("C24", f"gen{i}")
@@ -224,7 +224,7 @@ def run(tier, seed):
     lap("generate")
     # qp.cut_circuit without any WireCut (and without auto_cutter) raises by design: those cases feed the auto cutter only
     cut_cases = [i for i, c in enumerate(cases) if c["cuts"]]
-    n_num, n_str, n_auto, n_mc, shots = (300, 1100, 14, 2, 2500) if tier == "quick" else (6000, 30000, 150, 6, 20000)
+    n_num, n_str, n_auto, n_mc, shots = (300, 1000, 14, 2, 2500) if tier == "quick" else (3000, 9000, 100, 4, 10000)
     sel_str = [cut_cases[j] for j in pick([cases[i] for i in cut_cases], rng, n_str)]
     sel_num = [sel_str[j] for j in pick([cases[i] for i in sel_str], rng, n_num)]
     uncut = {}
@@ -234,21 +234,23 @@ def run(tier, seed):
     auto_ids = sorted(uncut.values())
     rng.shuffle(auto_ids)
     auto_ids = auto_ids[:n_auto]
-    mc_ids = [i for i in sel_num if cases[i]["terms"][0]["model"]["nlive"] == 1 and len(cases[i]["terms"]) == 1 and cases[i]["ob"] == 1
-              and cases[i]["terms"][0]["model"]["neff"] == len(cases[i]["cuts"])][:n_mc]
+    mc_cand = [i for i in sel_num if cases[i]["terms"][0]["model"]["nlive"] == 1 and len(cases[i]["terms"]) == 1 and cases[i]["ob"] == 1
+               and len(cases[i]["cuts"]) == 1][:40]
 
     # ---- exact oracle: expectation values of the uncut circuits
     tcases, owner = [], []
-    for i in sorted(set(sel_num) | set(auto_ids) | set(mc_ids)):
+    for i in sorted(set(sel_num) | set(auto_ids)):
         c = cases[i]
         req = [{"t": "expval", "pw": t["pw"]} for t in c["terms"]]
-        if i in mc_ids:
+        if i in mc_cand:
             used = {w for g in c["ops"] for w in g["w"]}
             req.append({"t": "expval", "pw": [3 if w + 1 in used else 0 for w in range(c["n"])]})
         tcases.append({"n": c["n"], "ops": c["ops"], "meas": req})
         owner.append(i)
     res, stats = tapeeval.evaluate("C24", tcases, M)
     exact = {i: r["meas"] for i, r in zip(owner, res)}
+    # Monte-Carlo cases: the candidates whose parity observable has the largest exact magnitude (a wrong reconstruction is then visible)
+    mc_ids = sorted(mc_cand, key=lambda i: (-round(abs(exact[i][-1]), 6), i))[:n_mc]
     lap("tapeeval")
 
     viol, samples, nontriv = [], [], set()
@@ -268,7 +270,7 @@ def run(tier, seed):
         ops = cut_ops(c, labels, variant, with_cuts=not auto)
         obs = observable(c, labels, variant)
         tape = qp.tape.QuantumScript(ops, [qp.expval(obs)])
-        want = sum(t["c"][0] / t["c"][1] * v for t, v in zip(c["terms"], exact[i]))
+        want = sum(t["c"][0] / t["c"][1] * v for t, v in zip(c["terms"], exact[i][:len(c["terms"])]))
         desc = {"ops": [str(o) for o in ops], "obs": str(obs), "device_wires": dev, "auto_cutter": auto}
         kind = "auto" if auto else "manual"
         try:
@@ -344,11 +346,17 @@ def run(tier, seed):
     for want, rec in hand:
         traces.append(rec)
         meta.append(("NEG", want, None, None))
-    wd = lib.workdir("C24", "trace")
-    (wd / "traces.json").write_text(json.dumps(traces))
-    r = lib.run_tlc("Trace_Cut", lib.cfg(constants={"NCASES": len(traces)}), wd, env={"TRACE_FILE": str(wd / "traces.json")}, timeout=6000)
-    lib.require_ok(r, "Trace_Cut")
-    verd = {t[1] - 1: t[2] for t in r.tuples if t[0] == "V"}
+    verd, r_distinct, r_generated = {}, 0, 0
+    CH = 5000
+    for off in range(0, len(traces), CH):
+        wd = lib.workdir("C24", f"trace{off}")
+        part = traces[off:off + CH]
+        (wd / "traces.json").write_text(json.dumps(part))
+        r = lib.run_tlc("Trace_Cut", lib.cfg(constants={"NCASES": len(part)}), wd, env={"TRACE_FILE": str(wd / "traces.json")}, timeout=6000)
+        lib.require_ok(r, "Trace_Cut")
+        verd.update({off + t[1] - 1: t[2] for t in r.tuples if t[0] == "V"})
+        r_distinct += r.distinct
+        r_generated += r.generated
     lap("trace_tlc")
     if len(verd) != len(traces):
         raise lib.MachineryError(f"verdicts not total: {len(verd)} of {len(traces)}")
@@ -402,7 +410,7 @@ def run(tier, seed):
         raise lib.MachineryError("comparator negative control accepted")
     if len(nontriv) < 50:
         raise lib.MachineryError(f"vacuous: only {len(nontriv)} non-trivial cases")
-    cov = {"states": st + r.distinct + stats["distinct"], "transitions": tr + r.generated + stats["generated"],
+    cov = {"states": st + r_distinct + stats["distinct"], "transitions": tr + r_generated + stats["generated"],
            "traces_validated_against_impl": n_tr, "evaluations": n_cmp + n_tr, "distinct_nontrivial": len(nontriv),
            "rule": "TLC enumerates every placement of <= MaxCuts WireCuts on the layered family with 3-5 observables; a seeded stratified sample is "
                    "replayed; non-trivial = distinct (case, mode) whose cutting produced at least one live cut edge (>1 fragment configuration) "
